@@ -65,6 +65,26 @@ func mutateSnippet(g *Gen, s string) []rune {
 	return rs
 }
 
+// longInput builds an input of exactly n characters by cycling the tokenizer's snippets with random cuts
+func longInput(g *Gen, kind string, n int) []rune {
+	r := g.Rand()
+	sn := tokSnippets[kind]
+	var out []rune
+	for len(out) < n {
+		s := []rune(sn[r.Intn(len(sn))])
+		if r.Intn(3) == 0 {
+			s = randomInput(g, kind, 12)
+		}
+		out = append(out, s...)
+		if r.Intn(2) == 0 {
+			out = append(out, ' ')
+		}
+	}
+	return out[:n]
+}
+
+var longSizes = []int{63, 64, 65, 100, 127, 128, 129, 255, 256, 257, 511, 512, 513, 1000, 1023, 1024, 1025, 2049, 4097}
+
 func genC04(g *Gen) {
 	for _, kind := range tokKinds {
 		kind := kind
@@ -78,6 +98,27 @@ func genC04(g *Gen) {
 				g.Run("exhaustive-core<="+fmt.Sprint(core)+":"+kind, []Ev{{"op": "tok", "kind": kind, "opts": []any{}, "input": cpsR(s)}})
 			}
 		})
+		for _, in := range rareInputs() {
+			g.Run("rare code points in every context:"+kind, []Ev{{"op": "tok", "kind": kind, "opts": []any{}, "input": cpsR(in)}})
+		}
+		for _, sz := range longSizes {
+			if sz > g.Pick(300, 5000) {
+				continue
+			}
+			for rep := 0; rep < g.Pick(1, 8); rep++ {
+				g.Run("long inputs (sizes around powers of two):"+kind, []Ev{{"op": "tok", "kind": kind, "opts": []any{}, "input": cpsR(longInput(g, kind, sz))}})
+			}
+		}
+		// one very long token of every class (buffers inside the states)
+		for _, sz := range []int{64, 257, 1025, 5000} {
+			if sz > g.Pick(300, 5000) {
+				continue
+			}
+			for _, unit := range []string{"a", "7", " ", "'x", "\"y", "<", "é", "#", "/*", "-", "."} {
+				in := []rune(strings.Repeat(unit, sz))
+				g.Run("one very long token:"+kind, []Ev{{"op": "tok", "kind": kind, "opts": []any{}, "input": cpsR(in)}})
+			}
+		}
 		n := g.Pick(1500, 40000)
 		for i := 0; i < n; i++ {
 			var in []rune
